@@ -427,7 +427,21 @@ func (k *core) skipFlagOrigins() (args []ssa.Value, origins []flagOrigin) {
 		seen[v] = true
 		switch x := v.(type) {
 		case *ssa.Phi:
-			for _, e := range x.Edges {
+			for ei, e := range x.Edges {
+				// the constant false on a path on which the flag is already known false (the "not skipping: nothing
+				// to switch on" branch written as an assignment) changes nothing
+				if cst, ok := e.(*ssa.Const); ok && cst.Value != nil && cst.Value.ExactString() == "false" {
+					pred := x.Block().Preds[ei]
+					known := false
+					for _, ec := range condsDominating(pred) {
+						if ph, isPhi := ec.Cond.(*ssa.Phi); isPhi && !ec.Val && isBoolLoopPhi(ph) {
+							known = true
+						}
+					}
+					if known {
+						continue
+					}
+				}
 				walk(e)
 			}
 			return
@@ -1116,10 +1130,46 @@ func (k *core) checkExitOnFreshScan(rule string) {
 									if sc == h || inLoopBody(h, sc) {
 										continue
 									}
-									// leaving the loop from its body: only `return true`
+									// leaving the loop before it is exhausted: only with the answer "someone is still watching":
+									// `return true`, or the return of the very flag whose truth is the exit condition
+									// (`for ...; i < n && !found; ... { found = s[i].watching }; return found`)
 									okExit := false
-									if ret, ok := sc.Instrs[len(sc.Instrs)-1].(*ssa.Return); ok && len(sc.Succs) == 0 && len(ret.Results) == 1 {
-										if cst, ok := ret.Results[0].(*ssa.Const); ok && cst.Value != nil && cst.Value.ExactString() == "true" {
+									var exitCond ssa.Value
+									exitVal := false
+									if iff, ok := b.Instrs[len(b.Instrs)-1].(*ssa.If); ok && b.Succs[0] != b.Succs[1] {
+										exitCond, exitVal = iff.Cond, b.Succs[0] == sc
+										for {
+											u, ok := exitCond.(*ssa.UnOp)
+											if !ok || u.Op != token.NOT {
+												break
+											}
+											exitCond, exitVal = u.X, !exitVal
+										}
+									}
+									// the return reached from the exit (through unconditional jumps)
+									tgt, from := sc, b
+									for hops := 0; hops < 4; hops++ {
+										if _, isRet := tgt.Instrs[len(tgt.Instrs)-1].(*ssa.Return); isRet {
+											break
+										}
+										if len(tgt.Succs) != 1 {
+											break
+										}
+										from, tgt = tgt, tgt.Succs[0]
+									}
+									if ret, ok := tgt.Instrs[len(tgt.Instrs)-1].(*ssa.Return); ok && len(ret.Results) == 1 {
+										rv := ret.Results[0]
+										if ph, isPhi := rv.(*ssa.Phi); isPhi && ph.Block() == tgt {
+											for pi, pr := range tgt.Preds {
+												if pr == from {
+													rv = ph.Edges[pi]
+												}
+											}
+										}
+										if cst, ok := rv.(*ssa.Const); ok && cst.Value != nil && cst.Value.ExactString() == "true" {
+											okExit = true
+										}
+										if exitCond != nil && rv == exitCond && exitVal {
 											okExit = true
 										}
 									}
@@ -1400,4 +1450,17 @@ func (k *core) cbUp(v ssa.Value) ssa.Value {
 		}
 	}
 	return v
+}
+
+// isBoolLoopPhi: a boolean phi at a loop header (a loop-carried flag).
+func isBoolLoopPhi(ph *ssa.Phi) bool {
+	if b, ok := ph.Type().Underlying().(*types.Basic); !ok || b.Kind() != types.Bool {
+		return false
+	}
+	for _, p := range ph.Block().Preds {
+		if ph.Block().Dominates(p) {
+			return true
+		}
+	}
+	return false
 }
